@@ -99,6 +99,36 @@ def run(ctx):
                           'message without any sanitize key changed: %r -> %r' % (text, strutils.mask_password(text)))
     ctx.cov['evaluations'] += n2
     ctx.stage('no-key-identity', messages=n2)
+    # the message need not be a str: whatever is passed is masked as the text str() makes of it (a dict prints in the
+    # dict_sq rendering, also inside a list or a tuple)
+    n3 = 0
+    for key in gm.SANITIZE:
+        for spelled in (key, key.upper(), 'x_' + key):
+            secret = 's%d3cr3t' % n3
+            for shape in ('dict', 'list_of_dict', 'tuple_of_text', 'dict_in_list_in_dict', 'exception'):
+                def build(v):
+                    if shape == 'dict':
+                        return {spelled: v}
+                    if shape == 'list_of_dict':
+                        return [{spelled: v}]
+                    if shape == 'tuple_of_text':
+                        return ('request failed', '%s=%s' % (spelled, v))
+                    if shape == 'dict_in_list_in_dict':
+                        return {'nodes': [{spelled: v}]}
+                    return ValueError('bad credentials: %s=%s' % (spelled, v))
+                obj = build(secret)
+                want = str(build('***'))
+                n3 += 1
+                try:
+                    got = strutils.mask_password(obj)
+                except Exception as e:
+                    got = 'EXC:%s' % type(e).__name__
+                if got != want:
+                    ctx.violation({'kind': 'non-str-message', 'shape': shape, 'leak': secret in str(got)},
+                                  {'message': repr(obj), 'expected': want, 'observed': got},
+                                  'mask_password(%r) -> %r, specification %r' % (obj, got, want))
+    ctx.cov['evaluations'] += n3
+    ctx.stage('non-str-messages', messages=n3)
     _rec.__exit__()
     _rec.replay(ctx, 'c04')
     # binding self-test: a key dropped from the list must be exposed
